@@ -46,6 +46,9 @@ var zzC19Scripts = []string{
 	"function f(x) { return x % (B - B); } y = 7; return f(A) + y;",
 	// a key given twice whose values are themselves hash literals
 	"h = {\"a\": {\"x\": 1, \"y\": 2}, \"a\": {\"x\": 3, \"y\": 4}}; return string(h);",
+	// float keys that print alike or compare oddly: two NaNs of different bits, the two zeros
+	"n = √(0 - 1); h = {n: \"a\", -n: \"b\", 1: \"c\"}; return string(h) + string(keys(h));",
+	"z = 0.0; h = {z: \"a\", -z: \"b\", 0: \"c\"}; r = \"\"; foreach k, v in h { r = r + v; } return r + string(h);",
 	// (last: the 4-key script multiplies permutations - thorough only)
 	"h = {A: \"x\", B: \"y\", \"5\": \"z\", 2.5: \"w\"}; r = \"\"; foreach k, v in h { r = r + v; } return r;",
 }
@@ -139,7 +142,7 @@ func zzC19Body(sv *zzsv.T) {
 	src := zzC19Scripts[k]
 	sv.Note("script", src)
 	var a, b int64
-	if k == 14 || k == 22 {
+	if k == 14 || k == 24 {
 		// integer keys of one and two digits next to string/float keys:
 		// representative pairs (symbolic keys would have to be rendered and
 		// ordered digit by digit under every permutation)
@@ -154,7 +157,7 @@ func zzC19Body(sv *zzsv.T) {
 		sv.Assume(b >= 0)
 		sv.Assume(b <= 3)
 	}
-	sv.Region("duplicate_key_in_literal", k == 5 || k == 6 || ((k == 7 || k == 14 || k == 22) && a == b))
+	sv.Region("duplicate_key_in_literal", k == 5 || k == 6 || ((k == 7 || k == 14 || k == 24) && a == b))
 	sv.Region("keys_printing_alike", k == 3 || k == 4)
 	sv.MapOrderNondet(false)
 	r1 := zzC19Do(sv, src, a, b, k == 15 || k == 16) // reference: insertion order everywhere
